@@ -20,6 +20,7 @@ func extractAll() {
 	safely("gen", genFacts)
 	safely("net", netFacts)
 	safely("nodeconn", nodeConnFacts)
+	safely("backoff", backoffFacts)
 	safely("access", accessFacts)
 }
 
@@ -1003,4 +1004,31 @@ func nodeConnFacts() {
 		mgrOK = inOnce && each
 	}
 	defBool("mgr_closeReachesEveryNode", mgrOK)
+}
+
+// ------------------------------------------------------------------ back-off forwarding (C10)
+
+// backoffFacts: the manager's back-off configuration governs both layers that re-establish a connection — the
+// channel's own reconnect loop (c.backoffCfg, set in newChannel from the manager's option) and gRPC's re-dialling of
+// the ClientConn (grpc.WithConnectParams) — so a node that listens again is used again within the configured delays.
+func backoffFacts() {
+	p := loadDir("")
+	fwd := false
+	if f := p.findFunc("mgr.go", "NewRawManager"); f != nil {
+		ast.Inspect(f, func(n ast.Node) bool {
+			if as, ok := n.(*ast.AssignStmt); ok && len(as.Lhs) == 1 && p.src(as.Lhs[0]) == "m.opts.grpcDialOpts" {
+				src := p.src(as.Rhs[0])
+				if strings.Contains(src, "grpc.WithConnectParams(") && strings.Contains(src, "Backoff: m.opts.backoff") {
+					fwd = true
+				}
+			}
+			return true
+		})
+	}
+	defBool("mgr_forwardsBackoff", fwd)
+	chanUses := false
+	if f := p.findFunc("channel.go", "newChannel"); f != nil {
+		chanUses = p.mentions(f, "backoffCfg: n.mgr.opts.backoff")
+	}
+	defBool("ch_usesMgrBackoff", chanUses)
 }
